@@ -658,6 +658,11 @@ func (lx *lexer) parseSpecFunc() *SpecFunc {
 	if lx.isId("rec") {
 		lx.next()
 		f.Rec = true
+	} else if lx.isId("rec2") || lx.isId("rec3") || lx.isId("rec4") {
+		// recursive with a larger unfolding depth at each use
+		t := lx.next().text
+		f.Rec = true
+		f.Fuel = int(t[3] - '0')
 	}
 	f.Name = lx.next().text
 	f.Params = lx.parseParams()
